@@ -55,9 +55,77 @@ func (w *World) replayObligation(out *checkOutcome, o *Oblig, dir string) (strin
 	return path, confirmed
 }
 
-// checkKnownFinding: the witness must still fail on the real code, and the obligation must hold outside the recorded class.
+// checkKnownFinding: (1) the recorded witness must still fail on the real code (otherwise the entry is stale and the
+// obligation is treated like any other); (2) the obligation must hold outside the recorded class of inputs: the function
+// is re-verified with the extra precondition !(class). Only then is the failure the known one.
 func (w *World) checkKnownFinding(out *checkOutcome, o *Oblig, kf KnownFinding, fullSec int) (bool, string) {
-	return false, "class-restricted re-proof not available for this obligation"
+	var detail strings.Builder
+	if kf.Witness != "" {
+		ok, log := runWitness(filepath.Join(verifRoot, kf.Witness), kf.Pkg)
+		if ok {
+			fmt.Fprintf(&detail, "the recorded witness %s no longer fails on the real code: the known-finding entry is stale\n%s\n", kf.Witness, firstLines(log, 6))
+			return false, detail.String()
+		}
+		fmt.Fprintf(&detail, "witness %s still fails on the real code\n", kf.Witness)
+	}
+	if kf.Class == "" {
+		return true, detail.String()
+	}
+	fn := w.funcs[o.Fn]
+	ct := w.contracts[o.Fn]
+	if fn == nil || ct == nil {
+		return false, detail.String() + "function or contract not found for class-restricted re-proof\n"
+	}
+	cl, err := parseClause("!("+kf.Class+")", filepath.Join(verifRoot, "known_findings.jsonl"), 0)
+	if err != nil {
+		return false, detail.String() + "class predicate does not parse: " + err.Error() + "\n"
+	}
+	cl.Label = "outside-known-class"
+	ct2 := *ct
+	ct2.Requires = append(append([]Clause{}, ct.Requires...), cl)
+	r := w.verifyFunc(fn, &ct2, w.modeFor(ct))
+	if r.Err != "" {
+		return false, detail.String() + "re-verification with the class excluded failed: " + r.Err + "\n"
+	}
+	var target *Oblig
+	for _, x := range r.Obls {
+		if x.Name == o.Name {
+			target = x
+		}
+	}
+	if target == nil {
+		return false, detail.String() + "obligation not generated in the class-restricted run\n"
+	}
+	r.Obls = []*Oblig{target}
+	solveAll([]*FuncResult{r}, 5, fullSec, 2)
+	if target.Res != nil && target.Res.Proved(target) {
+		fmt.Fprintf(&detail, "with the recorded class excluded (requires !(%s)) the obligation is discharged by %s\n", kf.Class, target.Res.Solver)
+		return true, detail.String()
+	}
+	fmt.Fprintf(&detail, "even with the recorded class excluded the obligation is not discharged (%s): this is a different violation\n", statusOf(target))
+	return false, detail.String()
+}
+
+// runWitness runs a committed witness test in-package through an overlay; returns whether it PASSES.
+func runWitness(file, pkg string) (bool, string) {
+	ov, err := os.CreateTemp("/var/tmp", "govc-ov-*.json")
+	if err != nil {
+		return false, err.Error()
+	}
+	defer os.Remove(ov.Name())
+	js, _ := json.Marshal(map[string]map[string]string{"Replace": {filepath.Join(repoRoot, pkg, "zz_verif_witness_test.go"): file}})
+	ov.Write(js)
+	ov.Close()
+	ctx, cancel := context.WithTimeout(context.Background(), 180*time.Second)
+	defer cancel()
+	cmd := exec.CommandContext(ctx, "go", "test", "-overlay", ov.Name(), "-vet=off", "-count=1", "-timeout", "120s", "-run", "TestVerifWitness", "./"+pkg)
+	cmd.Dir = repoRoot
+	cmd.Env = append(os.Environ(), "GOFLAGS=-mod=mod", "GOPROXY=off", "GOSUMDB=off", "GOTOOLCHAIN=local")
+	var outb bytes.Buffer
+	cmd.Stdout = &outb
+	cmd.Stderr = &outb
+	err = cmd.Run()
+	return err == nil, outb.String()
 }
 
 func (w *World) verifyLemmas(prop string) []*FuncResult { return nil }
@@ -445,16 +513,52 @@ func (w *World) runReplay(eng *Engine, o *Oblig, dir string) (bool, string) {
 	}
 	var log strings.Builder
 	entry := eng.entry
-	// arguments
-	var argNames []string
-	faithful := true
-	for i, p := range fn.Params {
-		name := fmt.Sprintf("a%d", i)
-		argNames = append(argNames, name)
-		fmt.Fprintf(&rc.code, "\tvar %s %s\n", name, rc.typeStr(p.Type()))
-		if !rc.buildValue(name, eng.top.args[i], entry, 0) {
-			faithful = false
+	// prefer a small counterexample: ask for short top-level slices first
+	var small []string
+	var collect func(v Val)
+	collect = func(v Val) {
+		switch x := v.(type) {
+		case SliceV:
+			small = append(small, fmt.Sprintf("(assert %s)", eng.ar.idxLe(x.Len, eng.ar.idxLit(3)).S))
+		case StructV:
+			for _, f := range x.F {
+				collect(f)
+			}
 		}
+	}
+	for _, a := range eng.top.args {
+		collect(a)
+	}
+	build := func() ([]string, bool) {
+		rc.code.Reset()
+		var argNames []string
+		faithful := true
+		for i, p := range fn.Params {
+			name := fmt.Sprintf("a%d", i)
+			argNames = append(argNames, name)
+			fmt.Fprintf(&rc.code, "\tvar %s %s\n", name, rc.typeStr(p.Type()))
+			if !rc.buildValue(name, eng.top.args[i], entry, 0) {
+				faithful = false
+			}
+		}
+		return argNames, faithful
+	}
+	var argNames []string
+	faithful := false
+	if len(small) > 0 {
+		func() {
+			defer func() {
+				if r := recover(); r != nil {
+					faithful = false
+				}
+			}()
+			rc.pins = append([]string{}, small...)
+			argNames, faithful = build()
+		}()
+	}
+	if !faithful {
+		rc.pins = nil
+		argNames, faithful = build()
 	}
 	if !faithful {
 		log.WriteString("replay: the counterexample mentions values that the replay generator cannot construct (large slices, interior pointers, abstract strings/maps); not replayed\n")
